@@ -85,7 +85,7 @@ func blockerFrameName(t string) string {
 
 // Case is one program of the space (JSON: the replay contract).
 type Case struct {
-	Family string   `json:"family"`        // tail | blocked | transparency-only | multiform | sequence | chain
+	Family string   `json:"family"`        // tail | blocked | transparency-only | multiform | sequence | chain | closure
 	Def    string   `json:"def,omitempty"` // "" (top-level defun) | labels (the loop is a set of labels-bound closures)
 	Shape  []string `json:"shape"`         // outermost first
 	Topo   int      `json:"topo"`          // cycle length 1..3
@@ -109,6 +109,10 @@ type Case struct {
 	// single (not serialised): run just ONE loop, started by this function;
 	// used to establish that no single loop of the sequence reaches the limit.
 	single string
+	// closure family only: the loop carries closures over its own parameters.
+	// Args is the parameter style (req | opt | rest | key).
+	Carry   string `json:"carry,omitempty"`   // collect | cps | return | prev
+	Capture string `json:"capture,omitempty"` // counter | data : the parameter the closure captures
 	// chain family only: Chain names the explored dimension for the class,
 	// "nest:<token>" (Shape is <token> repeated d times, or the 15 positions in
 	// rotation for "mixed") or "ring:<wrapper>" (Topo functions in a ring, each
@@ -137,6 +141,9 @@ func (c Case) tokens() []string {
 	}
 	if c.Family == "sequence" {
 		t = append(t, "SEQ-"+c.Starter)
+	}
+	if c.Family == "closure" {
+		t = append(t, "CLOS-"+c.Carry)
 	}
 	return append(t, c.Shape...)
 }
@@ -369,6 +376,9 @@ func Source(c Case) string {
 	}
 	if c.Family == "sequence" {
 		return sourceSeq(c)
+	}
+	if c.Family == "closure" {
+		return sourceClosure(c)
 	}
 	var b strings.Builder
 	b.WriteString("(set 'g-n 0) (set 'g-a 0)\n")
@@ -689,6 +699,11 @@ func sourceSeq(c Case) string {
 
 // optsOf derives the per-run runtime settings of a case.
 func optsOf(c Case) runOpts {
+	if c.Family == "closure" {
+		// a loop of <= 100 turns is far below this; it only keeps a broken
+		// evaluator's runaway continuation from spinning for a million turns
+		return runOpts{Limit: closureTailLimit}
+	}
 	if c.Family != "sequence" {
 		return runOpts{}
 	}
@@ -727,3 +742,103 @@ var ringWrappers = map[string][]string{
 }
 
 var ringWrapperNames = []string{"special-forms", "calls-and-lets"}
+
+// ---------------------------------------------------------------------------
+// closure family: loops that carry closures over their OWN PARAMETERS from one
+// turn to later turns, and use them after the parameters were rebound.
+//
+// Every function has a counter n, a datum d (d' = d + n + K) and a carrier c,
+// declared in one of four parameter styles (req: (n d c); opt: (n &optional d
+// c); rest: (n &rest r) with d = (car r), c = (nth r 1); key: (&key n d c)).
+// Each turn builds a closure over the counter or over the datum (for the rest
+// style: over the &rest parameter) and
+//
+//	collect  conses it onto the carrier; the closures are invoked after the loop
+//	cps      wraps the carrier: (lambda (v) (funcall c (+ v X))); the base case invokes it
+//	return   keeps the FIRST closure in the carrier and returns it; invoked after the loop
+//	prev     passes it on as the carrier; the NEXT turn invokes and prints it
+
+const closureTailLimit = 5000
+
+var closureCarries = []string{"collect", "cps", "return", "prev"}
+var closureCaptures = []string{"counter", "data"}
+var closureParams = []string{"req", "opt", "rest", "key"}
+
+func sourceClosure(c Case) string {
+	var b strings.Builder
+	b.WriteString("(set 'g-n 0) (set 'g-a 0)\n")
+	params := map[string]string{"req": "(n d c)", "opt": "(n &optional d c)", "rest": "(n &rest r)", "key": "(&key n d c)"}[c.Args]
+	dE, cE := "d", "c"
+	if c.Args == "rest" {
+		dE, cE = "(car r)", "(nth r 1)"
+	}
+	loc := vars{n: "n", a: dE}
+	var defs []string
+	for k := 0; k < c.Topo; k++ {
+		captured := "n"
+		if c.Capture == "data" {
+			captured = dE
+		}
+		val := fmt.Sprintf("(+ %d %s)", 1000*(k+1), captured)
+		next := ""
+		base := cE
+		pre := ""
+		switch c.Carry {
+		case "collect":
+			next = "(cons (lambda () " + val + ") " + cE + ")"
+		case "cps":
+			next = "(lambda (v) (funcall " + cE + " (+ v " + val + ")))"
+			base = "(funcall " + cE + " 0)"
+		case "return":
+			next = "(if " + cE + " " + cE + " (lambda () " + val + "))"
+		case "prev":
+			next = "(lambda () " + val + ")"
+			pre = "(debug-print 'prev n (if " + cE + " (funcall " + cE + ") 'none)) "
+		default:
+			panic("harness: carry " + c.Carry)
+		}
+		dNext := fmt.Sprintf("(+ %s n %d)", dE, k+1)
+		callee := fmt.Sprintf("f%d", (k+1)%c.Topo)
+		args := []string{"(- n 1)", dNext, next}
+		if c.Args == "key" {
+			args = []string{":n", "(- n 1)", ":d", dNext, ":c", next}
+		}
+		f := form{head: callee, args: args, fn: true, bare: true, tail: -1}
+		for i := len(c.Shape) - 1; i >= 0; i-- {
+			f = wrap(c, c.Shape[i], i+1, k, loc, f)
+		}
+		body := fmt.Sprintf("%s(if (<= n 0) %s %s)", pre, base, f.String())
+		if c.Def == "labels" {
+			defs = append(defs, fmt.Sprintf(" [f%d %s %s]\n", k, params, body))
+		} else {
+			defs = append(defs, fmt.Sprintf("(defun f%d %s %s)\n", k, params, body))
+		}
+	}
+	init := "()"
+	if c.Carry == "cps" {
+		init = "(lambda (v) v)"
+	}
+	top := fmt.Sprintf("(f0 %d 0 %s)", c.N, init)
+	if c.Args == "key" {
+		top = fmt.Sprintf("(f0 :n %d :d 0 :c %s)", c.N, init)
+	}
+	switch c.Carry {
+	case "collect":
+		top = "(map 'list (lambda (g) (funcall g)) " + top + ")"
+	case "return", "prev":
+		top = "(let ([g " + top + "]) (if g (funcall g) 'none))"
+	}
+	if c.Def == "labels" {
+		b.WriteString("(labels (\n")
+		for _, d := range defs {
+			b.WriteString(d)
+		}
+		b.WriteString(" )\n " + top + ")\n")
+		return b.String()
+	}
+	for _, d := range defs {
+		b.WriteString(d)
+	}
+	b.WriteString(top + "\n")
+	return b.String()
+}
